@@ -179,6 +179,14 @@ Definition dino_call {A : Type} (c : dcfg) (batch : A) (has_ctx : bool) (B : Z) 
     end
   else match tr with [] => Ok (batch, None) | _ => Mismatch end.
 
+(* A sequence of collate calls on ONE collator object (an epoch: full batches, a smaller last batch with
+   drop_last=False, calls without ctx in between, ...).  KDDinoMaskCollator.collate assigns no attribute of self: the
+   number of masked view-samples and the ratio bins are recomputed from the batch at hand in every call, and the only
+   thing that lives across calls is self.rng, whose draws are recorded per call.  So the k-th call is [dino_call] of
+   its own batch size and its own draws - nothing of the earlier calls enters. *)
+Definition dino_seq (c : dcfg) (calls : list (bool * Z * list draw)) : list (res (unit * option (list mask))) :=
+  map (fun '(has_ctx, B, tr) => dino_call c tt has_ctx B tr) calls.
+
 (* ======================================================================== *)
 (* I-JEPA                                                                   *)
 (* ======================================================================== *)
@@ -372,3 +380,17 @@ Definition ijepa_call {A : Type} (c : jcfg) (sizes : Z -> raw4) (ctr : Z) (batch
     | OutOfFuel => OutOfFuel
     end
   else match tr with [] => Ok (batch, ctr, None) | _ => Mismatch end.
+
+(* A sequence of collate calls on ONE collator object: the only state is _itr_counter, which a call with ctx advances
+   by one before it seeds the block-size generator.  Result per call: the counter before the call and what the call
+   returned; the sequence ends at the first call whose recorded draws do not fit. *)
+Fixpoint ijepa_seq (c : jcfg) (sizes : Z -> raw4) (ctr : Z) (calls : list (bool * Z * list draw))
+  : list (Z * option jout) :=
+  match calls with
+  | [] => []
+  | (has_ctx, B, tr) :: rest =>
+      match ijepa_call c sizes ctr tt has_ctx B tr with
+      | Ok (_, ctr', o) => (ctr, o) :: ijepa_seq c sizes ctr' rest
+      | _ => []
+      end
+  end.
